@@ -48,6 +48,9 @@ def impl_column(fmt, name, composed, v, rng):
     return ("ok", bytes(after[composed].tobytes()), others)
 
 
+_ARR_FAILS = []
+
+
 def correspond(ctx):
     ctx.extra["rule"] = ("exhaustive per element: every (format, sub-field) x all 256 prior bytes x values {-20..40, byte/int32/int64 extremes} "
                          "(thorough: -300..300) assigned through rec[name][:] = v on real PackedPointRecords with random other "
@@ -103,7 +106,7 @@ def correspond(ctx):
         scalar = kind == "int" or ctx.rng.random() < 0.4
         def rv():
             if bad and ctx.rng.random() < 0.6:
-                return ctx.rng.choice([maxv + 1, -1, 255, -7, maxv + 17])
+                return ctx.rng.choice([maxv + 1, -1, 255, -7, maxv + 17, 256, 257, 256 + maxv, -256, -255, 65536, 2 ** 32])
             return ctx.rng.randrange(maxv + 1)
         if scalar:
             v = rv()
@@ -111,7 +114,7 @@ def correspond(ctx):
             value = ctx.rng.choice([v, np.int64(v), np.int16(v) if -2 ** 15 <= v < 2 ** 15 else v])
         else:
             vlist = [rv() for _ in pos]
-            value = ctx.rng.choice([list(vlist), np.array(vlist, dtype=np.int64), np.array(vlist, dtype=np.int16)])
+            value = ctx.rng.choice([list(vlist), np.array(vlist, dtype=np.int64), np.array(vlist, dtype=np.int16) if all(-2 ** 15 <= v < 2 ** 15 for v in vlist) else np.array(vlist, dtype=np.int64)])
         if not pos:
             continue   # empty selection: numpy-level no-op, or the value check alone (covered per element)
         before = rec.array.copy()
@@ -123,6 +126,34 @@ def correspond(ctx):
         others = all(before[f].tobytes() == rec.array[f].tobytes() for f in before.dtype.names if f != composed)
         if im[0] == "err":
             others = others and before[composed].tobytes() == rec.array[composed].tobytes()
+        # the property itself on this case (no model involved), kept for the failing-input search
+        lsb = (m & -m).bit_length() - 1
+        oob = any(v > maxv or v < 0 for v in vlist)
+        why = None
+        if oob:
+            if im != ("err", "EOverflow"):
+                why = f"out-of-range value in {vlist} through a {kind} index with a {type(value).__name__} value was not refused ({im[0]})"
+            elif not others:
+                why = "record modified although OverflowError was raised"
+        else:
+            if im[0] != "ok":
+                why = f"in-range assignment refused: {im}"
+            else:
+                got = np.frombuffer(im[1], dtype=np.uint8)
+                last = {}
+                for p_, v_ in zip(pos, vlist):
+                    last[p_] = v_
+                for i_ in range(n):
+                    exp_b = (int(before[composed][i_]) & ~m & 0xFF) | ((last[i_] << lsb) if i_ in last else (int(before[composed][i_]) & m))
+                    if int(got[i_]) != exp_b:
+                        why = f"point {i_}: byte {int(got[i_]):#04x}, expected {exp_b:#04x}"
+                        break
+                if not others:
+                    why = "another dimension changed"
+        if why:
+            _ARR_FAILS.append({"kind": f"index expression {kind} {'out-of-range' if oob else 'in-range'}",
+                               "input": {"format": fmt, "field": name, "index": str(key)[:60], "value": str(value)[:80], "value_type": type(value).__name__ + (":" + str(getattr(value, "dtype", "")))},
+                               "observed": why})
         sel = ",".join(f"{p}:{v}" for p, v in zip(pos, vlist)) or "-"
         cases.append((f"sf_arr {m} {common.hexb(before[composed].tobytes())} {sel}", im, others, (fmt, name, kind, str(key)[:40], str(value)[:60])))
         ctx.count("index:" + kind)
@@ -164,8 +195,55 @@ def oracle_element(fmt, name, composed, m, v, rng):
     return None
 
 
+def oracle_special(rng):
+    """aliasing and empty-selection cases of the property, on the implementation"""
+    out = []
+    for fmt, name, composed, m in sub_fields():
+        lsb = (m & -m).bit_length() - 1
+        maxv = m >> lsb
+        n = 9
+        rec = fresh_record(fmt, rng, n)
+        vals = np.array(rec[name]).copy()
+        full = rec.array.copy()
+        # a live view of the same field as the value: v[:] = v, v[:] = v[::-1], shifted overlapping slices
+        rec[name][:] = rec[name]
+        if rec.array.tobytes() != full.tobytes():
+            out.append((f"self-assignment {name}", {"format": fmt, "field": name}, f"{name}[:] = {name} changed the record"))
+        rec = fresh_record(fmt, rng, n); vals = np.array(rec[name]).copy(); other = rec.array.copy()
+        rec[name][:] = rec[name][::-1]
+        if not np.array_equal(np.array(rec[name]), vals[::-1]):
+            out.append((f"reversed self-assignment {name}", {"format": fmt, "field": name}, f"{name}[:] = {name}[::-1] gave {np.array(rec[name]).tolist()} expected {vals[::-1].tolist()}"))
+        rec = fresh_record(fmt, rng, n); vals = np.array(rec[name]).copy()
+        setattr(rec, name, rec[name])
+        if not np.array_equal(np.array(rec[name]), vals):
+            out.append((f"attribute self-assignment {name}", {"format": fmt, "field": name}, "rec.f = rec.f changed the field"))
+        # out-of-range value with a selection that addresses nothing
+        for key, kd in ((np.zeros(n, dtype=bool), "mask matching nothing"), (slice(0, 0), "empty slice")):
+            for v in (maxv + 1, -1):
+                rec = fresh_record(fmt, rng, n); before = rec.array.tobytes()
+                try:
+                    rec[name][key] = v
+                    out.append((f"out-of-range with empty selection {name}", {"format": fmt, "field": name, "value": v, "key": kd}, f"{name}[{kd}] = {v} did not raise OverflowError"))
+                except OverflowError:
+                    pass
+                except Exception as ex:
+                    out.append((f"out-of-range with empty selection {name}", {"format": fmt, "field": name, "value": v, "key": kd}, f"raised {type(ex).__name__}"))
+                if rec.array.tobytes() != before:
+                    out.append((f"empty selection modified {name}", {"format": fmt, "field": name}, "record modified"))
+    return out
+
+
 def search(ctx, seeds):
     failing, seen = [], set()
+    for f in _ARR_FAILS:
+        if f["kind"] not in seen:
+            seen.add(f["kind"])
+            failing.append(f)
+    for kind, inp, why in oracle_special(ctx.rng):
+        k = kind.split(" ")[0] + " " + kind.split(" ")[1]
+        if k not in seen:
+            seen.add(k)
+            failing.append({"kind": kind, "input": inp, "observed": why})
     for fmt, name, composed, m in sub_fields():
         for v in values(ctx):
             why = oracle_element(fmt, name, composed, m, v, ctx.rng)
